@@ -58,3 +58,34 @@ func After(d Duration) *csched.Chan[Time] {
 	})
 	return c
 }
+
+// Timer is the handle returned by AfterFunc.
+type Timer struct {
+	stopped, fired bool
+}
+
+// Stop prevents the timer from firing; it reports whether it did so before the timer fired.
+func (t *Timer) Stop() bool {
+	was := !t.stopped && !t.fired
+	t.stopped = true
+	return was
+}
+
+// AfterFunc runs f in its own thread at any point the explorer chooses after
+// the call (if the harness policy allows that timer to fire and it has not been stopped).
+func AfterFunc(d Duration, f func()) *Timer {
+	t := &Timer{}
+	idx := timers
+	timers++
+	allowed := MayFire(idx, d)
+	if csched.S == nil {
+		return t
+	}
+	csched.GoDaemon(func() {
+		csched.S.Point(func() bool { return allowed && !t.stopped }, "timer.func")
+		t.fired = true
+		Fired++
+		f()
+	})
+	return t
+}
